@@ -7,8 +7,8 @@ namespace SonicSpec.RW
 variable {pf : Bool}
 
 theorem absOp_loopOp {a : Abs} {o : Op} (hk : a.k = .nonraw) (hwl : a.wl = false) (hwp : a.wp = false)
-    (ho : isLoopOp o = true) : absOp a o = some a := by
-  cases o <;> simp [isLoopOp] at ho <;> simp [absOp, Abs.canRead, hk, hwl, hwp]
+    (hwc : a.wc = false) (ho : isLoopOp o = true) : absOp a o = some a := by
+  cases o <;> simp [isLoopOp] at ho <;> simp [absOp, Abs.canRead, hk, hwl, hwp, hwc]
 
 theorem inv_step {s : State} (hI : Inv pf s) (i : Nat) : Inv pf (step pf s i) := by
   unfold step
@@ -34,21 +34,21 @@ theorem inv_step {s : State} (hI : Inv pf s) (i : Nat) : Inv pf (step pf s i) :=
     | loop cur body k =>
       rw [hp] at hs
       simp only [safe, Bool.and_eq_true, beq_iff_eq, Bool.not_eq_true'] at hs
-      obtain ⟨⟨⟨⟨⟨hk, hwl⟩, hwp⟩, hcur⟩, hbody⟩, hsk⟩ := hs
+      obtain ⟨⟨⟨⟨⟨⟨hk, hwl⟩, hwp⟩, hwc⟩, hcur⟩, hbody⟩, hsk⟩ := hs
       cases cur with
       | nil =>
         simp only [stepTh, hp]
         split
         · apply inv_local hI hth hok
           simp only [safe, Bool.and_eq_true, beq_iff_eq, Bool.not_eq_true']
-          exact ⟨⟨⟨⟨⟨hk, hwl⟩, hwp⟩, hbody⟩, hbody⟩, hsk⟩
+          exact ⟨⟨⟨⟨⟨⟨hk, hwl⟩, hwp⟩, hwc⟩, hbody⟩, hbody⟩, hsk⟩
         · exact inv_local hI hth hok hsk
       | cons o cur =>
         simp only [stepTh, hp]
         simp only [List.all_cons, Bool.and_eq_true] at hcur
-        apply inv_execOp hI hth hok (absOp_loopOp hk hwl hwp hcur.1)
+        apply inv_execOp hI hth hok (absOp_loopOp hk hwl hwp hwc hcur.1)
         simp only [safe, Bool.and_eq_true, beq_iff_eq, Bool.not_eq_true']
-        exact ⟨⟨⟨⟨⟨hk, hwl⟩, hwp⟩, hcur.2⟩, hbody⟩, hsk⟩
+        exact ⟨⟨⟨⟨⟨⟨hk, hwl⟩, hwp⟩, hwc⟩, hcur.2⟩, hbody⟩, hsk⟩
 
 theorem inv_run {s : State} (hI : Inv pf s) (sched : List Nat) : Inv pf (run pf s sched) := by
   induction sched generalizing s with
@@ -63,7 +63,7 @@ theorem inv_init (ps : List (Prog × List Bool)) (hs : ∀ p ∈ ps, safe pf Abs
     · rfl
     · intro h; cases h
     · intro i h; cases h
-    · intro _; exact ⟨rfl, rfl⟩
+    · intro _; exact ⟨rfl, rfl, rfl⟩
     · intro _; exact ⟨rfl, rfl, rfl⟩
     · intro h; cases h
     · intro h; exact absurd rfl h
@@ -87,7 +87,7 @@ theorem inv_init (ps : List (Prog × List Bool)) (hs : ∀ p ∈ ps, safe pf Abs
       exact { hW := ⟨fun h => (by cases h), fun h => (by cases h)⟩,
               hR := ⟨fun h => (by cases h), fun h => (by cases h)⟩,
               lkHeld := (by intro h; cases h), wlw := (by intro h; cases h),
-              wlH := (by intro h; cases h), wpH := (by intro h; cases h),
+              wlH := (by intro h; cases h), wpH := (by intro h; cases h), wcH := (by intro h; cases h),
               nofault := rfl, mread := (by intro h; cases h), lv := (by intro h; cases h),
               know := rfl, view := rfl, tvok := (by intro v g h; cases h) }
 
@@ -99,7 +99,7 @@ theorem inv_initLoaded (ps : List (Prog × List Bool)) (hs : ∀ p ∈ ps, safe 
     · rfl
     · intro h; cases h
     · intro i h; cases h
-    · intro _; exact ⟨rfl, rfl⟩
+    · intro _; exact ⟨rfl, rfl, rfl⟩
     · intro h; cases h
     · intro _; exact ⟨rfl, rfl, rfl⟩
     · intro _ a ha; cases ha
@@ -123,7 +123,7 @@ theorem inv_initLoaded (ps : List (Prog × List Bool)) (hs : ∀ p ∈ ps, safe 
       exact { hW := ⟨fun h => (by cases h), fun h => (by cases h)⟩,
               hR := ⟨fun h => (by cases h), fun h => (by cases h)⟩,
               lkHeld := (by intro h; cases h), wlw := (by intro h; cases h),
-              wlH := (by intro h; cases h), wpH := (by intro h; cases h),
+              wlH := (by intro h; cases h), wpH := (by intro h; cases h), wcH := (by intro h; cases h),
               nofault := rfl, mread := (by intro h; cases h), lv := (by intro h; cases h),
               know := rfl, view := rfl, tvok := (by intro v g h; cases h) }
 
@@ -169,6 +169,79 @@ theorem Inv.snapshot {s : State} (hI : Inv pf s) {th : Th} (hth : th ∈ s.ths)
   · exact Or.inl ⟨rfl, by rw [ea, h3 rfl], by rw [eb, h3 rfl]⟩
   · exact Or.inr ⟨rfl, by rw [ea, h4 rfl], by rw [eb, h4 rfl]⟩
   · exact absurd rfl (hok.tvok _ _ htv)
+
+/-! ### no plain write after publication -/
+
+def isWriteOp : Op → Bool
+  | .storeT | .writeL | .writeP | .writeC | .writeAll => true
+  | _ => false
+
+theorem execOp_writes {i : Nat} {sh : Sh} {th : Th} {o : Op} {K : Prog} (h : isWriteOp o = false) :
+    (execOp i sh th o K).1.hist.filter (·.wr) = sh.hist.filter (·.wr) := by
+  cases o <;> simp [isWriteOp] at h <;> simp only [execOp]
+  case acqW => split <;> rfl
+  case acqR => split <;> rfl
+  case relW => split <;> rfl
+  case relR => split <;> rfl
+  all_goals simp [Sh.record, mkAcc, List.filter]
+
+theorem absOp_write_needs_raw {s : State} {i : Nat} {th : Th} {a a' : Abs} {o : Op}
+    (hok : ThOK i s.sh th a) (hw : isWriteOp o = true) (habs : absOp a o = some a') : s.sh.t = .raw := by
+  have key : a.canWrite = true → s.sh.t = .raw := fun hc => (canWrite_info hok hc).2.2.2.2.1
+  cases o <;> simp [isWriteOp] at hw <;> simp only [absOp] at habs
+  case storeT =>
+    split at habs
+    next hc => simp only [Bool.and_eq_true] at hc; exact key hc.1.1
+    next => cases habs
+  case writeL =>
+    split at habs
+    next hc => simp only [Bool.and_eq_true] at hc; exact key hc.1
+    next => cases habs
+  case writeP =>
+    split at habs
+    next hc => simp only [Bool.and_eq_true] at hc; exact key hc.1
+    next => cases habs
+  case writeC =>
+    split at habs
+    next hc => exact key hc
+    next => cases habs
+  case writeAll => cases habs
+
+/-- once the type word is non-raw (the conversion has been published), no step of any disciplined
+    thread writes the node's fields or the memory behind `p` any more -/
+theorem writes_only_while_raw {s : State} (hI : Inv pf s) (ht : s.sh.t ≠ .raw) (i : Nat) :
+    (step pf s i).sh.hist.filter (·.wr) = s.sh.hist.filter (·.wr) := by
+  unfold step
+  cases hth : s.ths[i]? with
+  | none => rfl
+  | some th =>
+    obtain ⟨a, hs, hok⟩ := hI.2 i th hth
+    simp only
+    cases hp : th.prog with
+    | done => simp only [stepTh, hp]
+    | abort => simp only [stepTh, hp]
+    | br c x y => simp only [stepTh, hp]
+    | op o k =>
+      simp only [stepTh, hp]
+      rw [hp] at hs
+      simp only [safe] at hs
+      split at hs
+      next a' habs =>
+        cases hw : isWriteOp o
+        · exact execOp_writes hw
+        · exact absurd (absOp_write_needs_raw hok hw habs) ht
+      next => cases hs
+    | loop cur body k =>
+      rw [hp] at hs
+      simp only [safe, Bool.and_eq_true, beq_iff_eq, Bool.not_eq_true'] at hs
+      cases cur with
+      | nil => simp only [stepTh, hp]; split <;> rfl
+      | cons o cur =>
+        simp only [stepTh, hp]
+        have ho := hs.1.1.2
+        simp only [List.all_cons, Bool.and_eq_true] at ho
+        apply execOp_writes
+        cases o <;> simp [isLoopOp] at ho <;> rfl
 
 /-! ### fixed points of the interleaving semantics (used for deadlock witnesses) -/
 
